@@ -277,21 +277,24 @@ def main():
     if "--list" in args:
         args.remove("--list"); lst = True
     pids = args or [f"C{i:02d}" for i in range(1, 21)]
-    jobs = []
+    res = []
     for pid in pids:
+        # mutants are located right before the property is run: an edit to /repo in the meantime shifts offsets
         ms = all_mutants(pid)
         pick = sample(ms, mx, seed)
         print(f"# {pid}: {len(ms)} mutants over {len({m['anchor'] for m in ms})} anchored functions, running {len(pick)}", flush=True)
-        jobs += [(pid, m) for m in pick]
+        if lst:
+            for m in pick:
+                print(pid, m["file"], m["line"], m["kind"], repr(m["old"]), "->", repr(m["new"]))
+            continue
+        with ThreadPoolExecutor(j) as ex:
+            for r in ex.map(lambda m: run_one(pid, m), pick):
+                print(f"{r['property']} {r['verdict']:12s} {r['wall_s']:6.1f}s {r['file']}:{r['line']} {r['kind']} {r['old']!r}->{r['new']!r} {','.join(r['keys'])}", flush=True)
+                res.append(r)
+        if outf:
+            json.dump(res, open(outf, "w"), indent=1)
     if lst:
-        for pid, m in jobs:
-            print(pid, m["file"], m["line"], m["kind"], repr(m["old"]), "->", repr(m["new"]))
         return 0
-    res = []
-    with ThreadPoolExecutor(j) as ex:
-        for r in ex.map(lambda a: run_one(*a), jobs):
-            print(f"{r['property']} {r['verdict']:12s} {r['wall_s']:6.1f}s {r['file']}:{r['line']} {r['kind']} {r['old']!r}->{r['new']!r} {','.join(r['keys'])}", flush=True)
-            res.append(r)
     surv = [r for r in res if r["verdict"] != "CAUGHT"]
     print(f"{len(res) - len(surv)}/{len(res)} mutants caught; survivors: {len(surv)}")
     if outf:
